@@ -1009,7 +1009,7 @@ func (e *engine) childPlanCase(c cfg, gen string) {
 		} else {
 			impl = "crash"
 		}
-	case <-time.After(20 * time.Second):
+	case <-time.After(90 * time.Second):
 		_ = cmd.Process.Kill()
 		<-done
 		impl = "hang"
@@ -1695,25 +1695,35 @@ func (e *engine) wrapCase() {
 	c := cfg{nkeys: 1, t: 0xffffffff, grants: []gcfg{{1, []uint32{0}}}}
 	op := "envelope.plan " + c.args()
 	model := e.m.Query(op)
-	cmd := exec.Command(os.Args[0])
-	cmd.Env = append(os.Environ(), "VERIF_ENVELOPE_CHILD=wrap", "GOMEMLIMIT=1GiB")
-	var out bytes.Buffer
-	cmd.Stdout = &out
-	done := make(chan error, 1)
-	if err := cmd.Start(); err != nil {
-		panic(err)
-	}
-	go func() { done <- cmd.Wait() }()
 	impl := ""
-	select {
-	case <-done:
-		impl = strings.TrimSpace(out.String())
-		if impl == "" {
-			impl = "crash"
+	// load-proof: a child that was killed at the deadline having used (almost) no CPU was starved
+	// by the machine, not hung by BuildEnvelope: it is run again (the verdict "hang" needs a child
+	// that really computed for seconds)
+	for attempt := 0; attempt < 4 && impl == ""; attempt++ {
+		cmd := exec.Command(os.Args[0])
+		cmd.Env = append(os.Environ(), "VERIF_ENVELOPE_CHILD=wrap", "GOMEMLIMIT=1GiB")
+		var out bytes.Buffer
+		cmd.Stdout = &out
+		done := make(chan error, 1)
+		if err := cmd.Start(); err != nil {
+			panic(err)
 		}
-	case <-time.After(3 * time.Second):
-		_ = cmd.Process.Kill()
-		<-done
+		go func() { done <- cmd.Wait() }()
+		select {
+		case <-done:
+			impl = strings.TrimSpace(out.String())
+			if impl == "" {
+				impl = "crash"
+			}
+		case <-time.After(60 * time.Second):
+			_ = cmd.Process.Kill()
+			<-done
+			if ps := cmd.ProcessState; ps != nil && ps.UserTime()+ps.SystemTime() >= 5*time.Second {
+				impl = "hang"
+			}
+		}
+	}
+	if impl == "" {
 		impl = "hang"
 	}
 	mon := ""
